@@ -3,6 +3,7 @@
   C02 (order) and C11 (partial linking) reuse the lemmas of this file.
 -/
 import Props.Writer
+import Props.ImageSegment
 namespace Slinky.C01
 open Slinky W
 
@@ -138,5 +139,20 @@ theorem object_names_only_itself (cx : Ctx) (seg : Segment) (secs : List Str) :
       simp [hf] at h
       subst h
       simp at hl
+
+
+/-! ### in the linked image (the linker semantics `Slinkyv.Ld`) -/
+
+open Ld in
+/-- **C01, image clause**: every input section that the statements of an output section of a
+segment place ends up inside that output section's address range `[start, end]`, and in no
+other output section — for every object table and every state of the link. -/
+theorem image_placed_inside_segment (objs : List InSec) (cx : Ctx) (seg : Segment) (secs : List Str) (noload : Bool)
+    (ls : List Line) (h : writeSegment cx seg secs noload = .ok ls) (st : St) (ho : Outside st) (k : List Line) :
+    ∃ (start end_ : Nat) (new : List Placed), (execK objs st ls k).placed = st.placed ++ new ∧ start ≤ end_ ∧
+      ∀ p ∈ new, start ≤ p.addr ∧ p.addr + p.inp.size ≤ end_ ∧
+        p.out = (if noload then c!"." ++ seg.name ++ c!".noload" else c!"." ++ seg.name) := by
+  obtain ⟨start, end_, al, new, st', name, addr, h0, hn, _, _, _, _, h6, _, h8, h9, _⟩ := section_image objs cx seg secs noload ls h st ho k
+  exact ⟨start, end_, new, h0 ▸ h8, h6, hn ▸ chainOk_mem _ _ _ _ h9⟩
 
 end Slinky.C01
